@@ -56,6 +56,9 @@ fn parent_doc(dm: &str, bid: u32) -> String {
   <transition event="cmd.10"><send event="mi.a10" targetexpr="'#_' + 'internal'"/></transition>
   <transition event="cmd.14"><send event="relay.a14" target="#_scxml_{bid}"><param name="o" expr="{nested}"/></send></transition>
   <transition event="cmd.15"><send event="relay.a15" target="#_kid"><param name="o" expr="{nested}"/></send></transition>
+  <transition event="cmd.16"><send event="m.a16" target="#_scxml_{bid}" namelist="v"><param name="q" expr="w"/></send></transition>
+  <transition event="cmd.17"><send event="mi.a17" target="#_internal" namelist="w v"><param name="z" expr="v + 1"/></send></transition>
+  <transition event="cmd.18"><send event="m.a18" target="#_kid" namelist="w"><param name="p" expr="v"/><param name="q" expr="v + 2"/></send></transition>
   <transition event="cmd.11"><send event="m.fenceA"/></transition>
   <transition event="cmd.12"><send event="m.fenceB" target="#_scxml_{bid}"/></transition>
   <transition event="cmd.13"><send event="m.fenceC" target="#_kid"/></transition>
@@ -127,7 +130,7 @@ fn routing(dm: &str, rep: &mut Report) {
     wait_stable(&mut a, 2); // m.c1, m.c2 from the child
     let aid = a.session.session_id;
     let mut sent = 2;
-    for k in [1, 2, 3, 4, 5, 6, 7, 8, 9, 10, 14, 15, 11, 12, 13] {
+    for k in [1, 2, 3, 4, 5, 6, 7, 8, 9, 10, 14, 15, 16, 17, 18, 11, 12, 13] {
         a.send(&format!("cmd.{}", k));
         sent += 1;
         wait_stable(&mut a, sent);
@@ -194,6 +197,10 @@ fn routing(dm: &str, rep: &mut Report) {
         Want { name: "m.a8", session: 'B', internal: false, origin_of: Some('A'), sendid: Some("<generated>"), data: None, invokeid: false },
         Want { name: "m.a9", session: 'B', internal: false, origin_of: Some('A'), sendid: Some("explicit-id"), data: None, invokeid: false },
         Want { name: "mi.a10", session: 'A', internal: true, origin_of: None, sendid: None, data: None, invokeid: false },
+        // namelist and <param> together: both contribute
+        Want { name: "m.a16", session: 'B', internal: false, origin_of: Some('A'), sendid: None, data: Some(map(&[("v", V::Int(5)), ("q", V::Str("str".into()))])), invokeid: false },
+        Want { name: "mi.a17", session: 'A', internal: true, origin_of: None, sendid: None, data: Some(map(&[("w", V::Str("str".into())), ("v", V::Int(5)), ("z", V::Int(6))])), invokeid: false },
+        Want { name: "m.a18", session: 'C', internal: false, origin_of: Some('A'), sendid: None, data: Some(map(&[("w", V::Str("str".into())), ("p", V::Int(5)), ("q", V::Int(7))])), invokeid: false },
         // nested payloads keep their structure, also when relayed by the receiver
         Want { name: "relay.a14", session: 'B', internal: false, origin_of: Some('A'), sendid: None, data: Some(map(&[("o", nested.clone())])), invokeid: false },
         Want { name: "relay.a15", session: 'C', internal: false, origin_of: Some('A'), sendid: None, data: Some(map(&[("o", nested.clone())])), invokeid: false },
